@@ -4,9 +4,12 @@ import (
 	"fmt"
 	"os"
 	"path/filepath"
+	"runtime"
 	"strconv"
 	"strings"
 	"sync"
+	"sync/atomic"
+	"time"
 
 	"github.com/AdguardTeam/urlfilter"
 	"github.com/AdguardTeam/urlfilter/filterlist"
@@ -364,6 +367,7 @@ func c14Run(c *core.Ctx, idx int) {
 	}
 	results := make([][]result, g)
 	panics := make([]string, g)
+	var progress atomic.Int64
 	var start, done sync.WaitGroup
 	start.Add(1)
 	for k := 0; k < g; k++ {
@@ -378,12 +382,46 @@ func c14Run(c *core.Ctx, idx int) {
 			start.Wait()
 			for _, ri := range work[k] {
 				results[k] = append(results[k], result{ri, conEng.answer(distinct[ri])})
+				progress.Add(1)
 			}
 		}(k)
 	}
 	before := mon.Snapshot()
 	start.Done()
-	done.Wait()
+	// Every query returns: the round is over when all goroutines are done.  A
+	// round that makes no progress at all while every goroutine that is still
+	// in it is blocked acquiring a lock (nobody is left to release one) is a
+	// deadlock; that is decided on the goroutine states, not on elapsed time.
+	finished := make(chan struct{})
+	go func() { done.Wait(); close(finished) }()
+	last, still := int64(-1), 0
+wait:
+	for {
+		select {
+		case <-finished:
+			break wait
+		case <-time.After(2 * time.Second):
+			if p := progress.Load(); p != last {
+				last, still = p, 0
+
+				continue
+			}
+			if still++; still < 3 {
+				continue
+			}
+			if n, dump := c14BlockedOnLocks(); n > 0 {
+				mon.SetExtra(nil)
+				w2 := w
+				w2.Race = dump
+				c.Violation("deadlock:"+kind, nil, w2, "%s engine, %d goroutines, perturbation %s: after %d of %d queries no query returns any more and all %d goroutines still in the round are blocked acquiring a lock:\n%s",
+					kind, g, c14ModeNames[mode], last, total, n, dump)
+				c.Event("rounds_that_deadlocked", 1)
+
+				return
+			}
+			still = 0
+		}
+	}
 	mon.SetExtra(nil)
 	d := mon.Delta(before, mon.Snapshot())
 
@@ -452,6 +490,46 @@ func c14Run(c *core.Ctx, idx int) {
 	}
 }
 
+// c14BlockedOnLocks looks at the goroutines that are executing queries of a
+// round (frames of c14Run's query closure).  It returns their number and
+// their stacks if there is at least one and every one of them is waiting to
+// acquire a mutex, and 0 otherwise.
+func c14BlockedOnLocks() (n int, dump string) {
+	buf := make([]byte, 4<<20)
+	buf = buf[:runtime.Stack(buf, true)]
+	var blocked []string
+	for _, g := range strings.Split(string(buf), "\n\n") {
+		if !strings.Contains(g, "props.c14Run.func") || !strings.Contains(g, ".answer(") {
+			continue
+		}
+		head := g
+		if i := strings.IndexByte(g, '\n'); i > 0 {
+			head = g[:i]
+		}
+		i, j := strings.IndexByte(head, '['), strings.IndexByte(head, ']')
+		if i < 0 || j < i {
+			return 0, ""
+		}
+		state := head[i+1 : j]
+		if k := strings.IndexByte(state, ','); k > 0 {
+			state = state[:k]
+		}
+		switch state {
+		case "sync.RWMutex.RLock", "sync.RWMutex.Lock", "sync.Mutex.Lock", "semacquire":
+			lines := strings.Split(g, "\n")
+			blocked = append(blocked, strings.Join(lines[:min(len(lines), 14)], "\n"))
+		default:
+			return 0, ""
+		}
+	}
+	n = len(blocked)
+	if n > 6 {
+		blocked = append(blocked[:6], fmt.Sprintf("... and %d more", n-6))
+	}
+
+	return n, strings.Join(blocked, "\n\n")
+}
+
 func init() {
 	sizes := map[core.Tier]int{core.Quick: 256, core.Thorough: 2400}
 	core.Register(&core.Prop{
@@ -461,7 +539,7 @@ func init() {
 		Rule: "harness built with -race; per round a fresh cold storage (String- or File-backed) and engine (DNS, full Engine, NetworkEngine.MatchAll, cosmetic, or web+cosmetic queries mixed on one Engine) over a generated list of 100..400 (thorough 2000) lines or an easylist slice (in a third of the rounds two lists with identical rule offsets: the list and a twin with other host names), a request multiset of 50..250 (thorough 500) drawn from 5..30 distinct requests (few keys, many threads; URLs repeating indexed windows) partitioned over 2/4/8/16/32 goroutines released by a barrier; " +
 			"schedule perturbation at the hook points (cache miss/insert, between Seek and read, before regexp.Compile, pool get/put) in one of four modes: none, Gosched with probability p, 1..50 us sleep, rendezvous (the first goroutine at a miss/seek/compile point of key K is held until a second one reaches the same point and key); " +
 			"one round in six runs over a compressed hosts file (up to 16 names per line) queried for its names; " +
-			"monitors: race detector reports (log parsed after every round), every concurrent answer == the sequential answer of a separate engine over the same bytes (sorted text multisets), no panic; non-trivial = round with cache misses; distinct by the observed global order of miss/insert events (the interleaving signature)",
+			"monitors: race detector reports (log parsed after every round), every query returns (a round without progress whose remaining goroutines are all blocked acquiring a lock is a deadlock), every concurrent answer == the sequential answer of a separate engine over the same bytes (sorted text multisets), no panic; non-trivial = round with cache misses; distinct by the observed global order of miss/insert events (the interleaving signature)",
 		Assumptions: []string{
 			"schedules are those the Go scheduler produces under the perturbation; the evidence reports how many overlapping miss windows and rendezvous were actually observed",
 			"the race detector only sees the accesses the rounds perform",
